@@ -350,6 +350,12 @@ pub fn execute(t: &Trace, opts: Opts) -> ExecResult {
         let step = i as i64;
         let op = &ev.op;
         run.stats.bump("events");
+        if op.code == Code::Rehash {
+            run.stats.bump("fault_fired:forced_rehash");
+        }
+        if ev.observer {
+            run.stats.bump("fault_fired:observer_call");
+        }
         if run.v.iter().filter(|v| v.prop == t.prop).count() >= 6 {
             break;
         }
